@@ -1428,7 +1428,10 @@ static int32_t pstm_mod_2d(const pstm_int *a, int16_t b, pstm_int *c)
         c->dp[x] = 0;
     }
     /* clear the digit that is not completely outside/inside the modulus */
-    c->dp[b / DIGIT_BIT] &= ~((pstm_digit) 0) >> (DIGIT_BIT - b);
+    if ((b % DIGIT_BIT) != 0)
+    {
+        c->dp[b / DIGIT_BIT] &= ~((pstm_digit) 0) >> (DIGIT_BIT - (b % DIGIT_BIT));
+    }
     pstm_clamp(c);
     return PSTM_OKAY;
 }
